@@ -417,10 +417,22 @@ class Sub(nn.Module):
 
 
 class Holder(Sub):
+    """nested = number of sub-module levels between the hooked module and the attribute (attribute path 'w', 'sub.w', 'sub.sub.w')"""
+
     def __init__(self, t, as_param, nested):
         Sub.__init__(self, t, as_param)
         if nested:
-            self.sub = Sub(t, as_param)
+            self.sub = Holder(t, as_param, int(nested) - 1)
+
+    def leaf(self, nested):
+        m = self
+        for _ in range(int(nested)):
+            m = m.sub
+        return m
+
+
+def attr_path(nested):
+    return "sub." * int(nested) + "w"
 
 
 VALS = (-2.0, -0.5, 0.0, 0.5, 3.0)
@@ -456,18 +468,24 @@ def post_shard(part, tier, sel=None):
     if part == "clamp":
         bounds = [(None, 1.0), (-1.0, None), (-1.0, 1.0), (0.0, 0.5), (-3.0, -0.25), (0.5, 2.5)]
         for (lo, hi) in (bounds if sel is None else [bounds[sel]]):
-            for as_param, nested, pre in itertools.product((False, True), (False, True), (False, True)):
+            for as_param, nested, pre in itertools.product((False, True), (0, 1, 2), (False, True)):
                 if quick and nested and not as_param:
+                    continue
+                if quick and nested == 2 and pre:
                     continue
                 for tv in tensors:
                     t = torch.tensor(tv).reshape(shape)
                     m = Holder(t, as_param, nested)
-                    h = Clamping(m, "sub.w" if nested else "w", min=lo, max=hi, as_prehook=pre)
-                    h.register()
-                    m()
-                    w = (m.sub.w if nested else m.w).detach()
+                    case = {"hook": "Clamping", "min": lo, "max": hi, "tensor": tv, "param": as_param, "nested": nested, "attr": attr_path(nested), "pre": pre}
+                    try:
+                        h = Clamping(m, attr_path(nested), min=lo, max=hi, as_prehook=pre)
+                        h.register()
+                        m()
+                    except Exception as ex:
+                        tally.violation(f"exception:clamp:depth{nested}:{type(ex).__name__}", case, f"hook on {attr_path(nested)!r} raised {type(ex).__name__}: {ex}", None, repr(ex))
+                        break
+                    w = m.leaf(nested).w.detach()
                     tally.add("evaluations")
-                    case = {"hook": "Clamping", "min": lo, "max": hi, "tensor": tv, "param": as_param, "nested": nested, "pre": pre}
                     vals = w.reshape(-1).tolist()
                     okk = all((lo is None or v >= lo) and (hi is None or v <= hi) for v in vals)
                     exp = [min(max(v, lo if lo is not None else -math.inf), hi if hi is not None else math.inf) for v in tv]
@@ -477,7 +495,7 @@ def post_shard(part, tier, sel=None):
                         tally.violation("clamp:out-of-range", case, f"after the hook ran the attribute is {vals}", [lo, hi], vals)
                     elif vals != exp:
                         tally.violation("clamp:value", case, f"clamped attribute {vals}, expected {exp}", exp, vals)
-                    if as_param and not isinstance((m.sub.w if nested else m.w), nn.Parameter):
+                    if as_param and not isinstance(m.leaf(nested).w, nn.Parameter):
                         tally.violation("clamp:param-replaced", case, "parameter replaced by a plain tensor", None, None)
                     h.deregister()
     else:
@@ -490,13 +508,18 @@ def post_shard(part, tier, sel=None):
                     for as_param in ((False, True) if not quick else (True,)):
                         for tv in tensors:
                             t = torch.tensor(tv).reshape(shape)
-                            m = Holder(t, as_param, False)
-                            h = Normalization(m, "w", p, sc, dim)
-                            h.register()
-                            m()
-                            w = m.w.detach().to(torch.float64)
+                            nested = 2 if (dim == -1 and sc == 0.5) else (1 if dim == 0 else 0)  # attribute path depth varies over the grid
+                            m = Holder(t, as_param, nested)
+                            case = {"hook": "Normalization", "order": p, "scale": sc, "dim": dim, "tensor": tv, "param": as_param, "attr": attr_path(nested)}
+                            try:
+                                h = Normalization(m, attr_path(nested), p, sc, dim)
+                                h.register()
+                                m()
+                            except Exception as ex:
+                                tally.violation(f"exception:norm:depth{nested}:{type(ex).__name__}", case, f"hook on {attr_path(nested)!r} raised {type(ex).__name__}: {ex}", None, repr(ex))
+                                break
+                            w = m.leaf(nested).w.detach().to(torch.float64)
                             tally.add("evaluations")
-                            case = {"hook": "Normalization", "order": p, "scale": sc, "dim": dim, "tensor": tv, "param": as_param}
                             for grp in slices(shape, dim):
                                 src = [float(t[i]) for i in grp]
                                 got = [float(w[i]) for i in grp]
